@@ -24,6 +24,7 @@
 // collection (the harness makes the system clock advance around every collection, so the windows are disjoint
 // and a clock tie cannot occur), "?" anything else.  Double values are fed as k * 2^-10 and printed as k.
 #include "common.h"
+#include "metrics_factories.h"
 
 #include <algorithm>
 #include <chrono>
@@ -111,13 +112,14 @@ struct World
   nostd::shared_ptr<apim::Meter> meter;
   std::vector<std::unique_ptr<Handle>> handles;
   std::vector<std::pair<TimeNs, TimeNs>> windows;
-  TimeNs sdk_start = 0;
+  TimeNs sdk_start = 0;              // exact, when the construction path used exposes the MeterContext
+  TimeNs sdk_lo = 0, sdk_hi = -1;     // else: the window in which the provider was constructed (disjoint from every collection window)
   size_t nadd      = 0;  // `add` operations so far: the overload used rotates with it (all overloads must record the same)
 
   std::string ts(common::SystemTimestamp t) const
   {
     TimeNs v = t.time_since_epoch().count();
-    if (v == sdk_start) return "sdk";
+    if (ctx ? v == sdk_start : (sdk_lo < v && v <= sdk_hi)) return "sdk";
     for (size_t k = 0; k < windows.size(); k++)
       if (windows[k].first < v && v <= windows[k].second) return "#" + std::to_string(k + 1);
     return "?";
@@ -158,7 +160,7 @@ static std::vector<std::string> split(const std::string &s, char c)
   return v;
 }
 
-static bool setup(World &w, const std::vector<std::string> &op)
+static bool setup(World &w, const std::vector<std::string> &op, uint64_t hash)
 {
   if (op.size() != 3 || op[0] != "cfg") return false;
   std::vector<std::pair<char, int>> temps;  // (mode, filter 0..2 or -1)
@@ -186,23 +188,26 @@ static bool setup(World &w, const std::vector<std::string> &op)
     }
     if (w.views.size() > 4) return false;
   }
-  std::unique_ptr<sdkm::ViewRegistry> registry(new sdkm::ViewRegistry());
-  std::unique_ptr<sdkm::MeterContext> ctx(new sdkm::MeterContext(std::move(registry)));
-  w.ctx       = ctx.get();
-  w.sdk_start = w.ctx->GetSDKStartTime().time_since_epoch().count();
-  w.provider.reset(new sdkm::MeterProvider(std::move(ctx)));
+  // provider, context, registry, views and selectors through the constructors or the *Factory::Create overloads, chosen by
+  // the hash of the case text (metrics_factories.h); the views are added with MeterProvider::AddView afterwards
+  w.sdk_lo = tick();
+  {
+    auto built  = vhm::make_provider(hash, vhm::mix(hash, 1) % 2 ? vhm::make_registry(hash) : nullptr, nullptr, nullptr);
+    w.provider  = built.provider;
+    w.ctx       = built.ctx;
+  }
+  w.sdk_hi = tick();
+  if (w.ctx) w.sdk_start = w.ctx->GetSDKStartTime().time_since_epoch().count();
   for (size_t g = 0; g < w.views.size(); g++)
   {
     std::string iname = "i" + std::to_string(w.views[g].first);
-    std::unique_ptr<sdkm::InstrumentSelector> isel(new sdkm::InstrumentSelector(
-        w.views[g].second ? sdkm::InstrumentType::kCounter : sdkm::InstrumentType::kUpDownCounter, iname, ""));
-    std::unique_ptr<sdkm::MeterSelector> msel(new sdkm::MeterSelector("m", "", ""));
+    auto isel = vhm::make_isel(vhm::mix(hash, 100 + g), w.views[g].second ? sdkm::InstrumentType::kCounter : sdkm::InstrumentType::kUpDownCounter, iname, "");
+    auto msel = vhm::make_msel(vhm::mix(hash, 200 + g), "m", "", "");
     // every other view names the aggregation explicitly (sum - what counters and up-down counters have by default anyway)
     // ... and every third one carries a description, which replaces the instrument's in the exported descriptor
     const std::string vdesc = g % 3 == 2 ? "vd" + std::to_string(g) : "";
-    std::unique_ptr<sdkm::View> view(g % 2 == 1 ? new sdkm::View("v" + std::to_string(g), vdesc, "", sdkm::AggregationType::kSum)
-                                                : (vdesc.empty() ? new sdkm::View("v" + std::to_string(g))
-                                                                 : new sdkm::View("v" + std::to_string(g), vdesc)));
+    auto view = vhm::make_view(vhm::mix(hash, 300 + g), "v" + std::to_string(g), vdesc, "",
+                               g % 2 == 1 ? sdkm::AggregationType::kSum : sdkm::AggregationType::kDefault);
     w.provider->AddView(std::move(isel), std::move(msel), std::move(view));
   }
   for (auto t : temps)
@@ -358,7 +363,7 @@ static std::string handle_met(const std::vector<std::string> &t)
   auto ops = vh::split_ops(t, 1);
   if (ops.empty()) return "bad-op";
   World w;
-  if (!setup(w, ops[0])) return "bad-op";
+  if (!setup(w, ops[0], vhm::case_hash(t))) return "bad-op";
   std::vector<std::string> outs{"ok"};
   for (size_t i = 1; i < ops.size(); i++)
   {
